@@ -1,6 +1,6 @@
 """Histories of StaticFiles operations: running them on the implementation (harness `capture statics`)
 and on the extracted model (driver `statics`), and parsing both results."""
-import os, re
+import os, re, json
 from vlib import *
 
 def hx(b):
@@ -108,3 +108,66 @@ def items_of(statics_rs):
     body = statics_rs[i:j]
     items = [b"\n/// From " + x for x in body.split(b"\n/// From ")[1:]]
     return statics_rs[:i], items, statics_rs[j:]
+
+def rustc_statics_batch(histories, probes_per_history, harness=None, extra_rustc=(), mime=False):
+    """Run the histories on the implementation keeping OUT_DIRs, compile all generated statics.rs
+    files into ONE program with rustc, run it, and return per history:
+      dict(ok=bool, entries=[(name, content)], idents_ok=bool, gets=[index-or-None per probe], error=str)
+    plus the parsed impl results.  Everything lives in a temp dir that is removed before returning."""
+    import tempfile, subprocess, shutil
+    harness = harness or HARNESS
+    root = tempfile.mkdtemp(prefix="rvb-")
+    try:
+        env = dict(os.environ, RVH_ROOT=root)
+        lines = [impl_line(h) for h in histories]
+        p = subprocess.run([harness, "capture", "statics"], input=("\n".join(lines) + "\n").encode(), capture_output=True, env=env)
+        outs = [parse_fields(l) for l in p.stdout.decode("utf8", "replace").split("\n") if l]
+        src = ["#![allow(warnings)]", "fn hx(b: &[u8]) -> String { if b.is_empty() { return \"-\".into(); } b.iter().map(|x| format!(\"{:02x}\", x)).collect() }"]
+        main = ["fn main() {"]
+        for i, (h, o) in enumerate(zip(histories, outs)):
+            od = unhexs(o.get("outdir", "-")).decode()
+            st = os.path.join(od, "templates", "statics.rs")
+            if not os.path.exists(st):
+                main.append('  println!("H %d MISSING");' % i); continue
+            idents = [k.decode() for k, _ in parse_names(o.get("names"))]
+            src.append("mod m%d { include!(%s); pub fn idents() -> Vec<&'static StaticFile> { vec![%s] } }" % (
+                i, json.dumps(st), ", ".join("&" + x for x in idents)))
+            main.append('  print!("H %d");' % i)
+            main.append('  for s in m%d::STATICS { print!(" {}:{}", hx(s.name.as_bytes()), hx(s.content)); }' % i)
+            main.append('  print!(" | {}", m%d::idents().len());' % i)
+            for pr in probes_per_history[i] if probes_per_history else []:
+                main.append('  print!(" {}", match m%d::StaticFile::get(%s) { Some(s) => hx(s.name.as_bytes()), None => "!".to_string() });' % (
+                    i, "std::str::from_utf8(&%s).unwrap()" % list(pr)))
+            main.append('  println!();')
+        main.append("}")
+        prog = os.path.join(root, "batch.rs")
+        open(prog, "w").write("\n".join(src + main) + "\n")
+        r = subprocess.run(["rustc", "--edition", "2021", "-A", "warnings", "-C", "debuginfo=0", "-C", "codegen-units=16", prog, "-o", os.path.join(root, "batch")] + list(extra_rustc),
+                           capture_output=True, cwd=root)
+        res = [dict(ok=False, entries=[], gets=[], error="") for _ in histories]
+        if r.returncode != 0:
+            err = r.stderr.decode("utf8", "replace")
+            # attribute errors to histories by the path of the included file
+            bad = set()
+            for i, o in enumerate(outs):
+                od = unhexs(o.get("outdir", "-")).decode()
+                if od and od in err: bad.add(i)
+            for i in range(len(histories)):
+                res[i]["error"] = ("rustc rejected the generated statics module: " + err[:1500]) if (i in bad or not bad) else "batch not run (another module failed to compile)"
+            res_meta = dict(compile_failed=True, bad=sorted(bad), stderr=err[:3000])
+            return res, outs, res_meta
+        out = subprocess.run([os.path.join(root, "batch")], capture_output=True).stdout.decode()
+        for l in out.split("\n"):
+            if not l.startswith("H "): continue
+            f = l.split(" ")
+            i = int(f[1])
+            if f[2:] == ["MISSING"]:
+                res[i]["error"] = "statics.rs missing"; continue
+            bar = f.index("|")
+            res[i]["entries"] = [tuple(unhexs(x) for x in e.split(":")) for e in f[2:bar]]
+            res[i]["n_idents"] = int(f[bar + 1])
+            res[i]["gets"] = [None if x == "!" else unhexs(x) for x in f[bar + 2:]]
+            res[i]["ok"] = True
+        return res, outs, dict(compile_failed=False)
+    finally:
+        shutil.rmtree(root, ignore_errors=True)
